@@ -142,6 +142,25 @@ macro_rules! c20_harness {
     };
 }
 
+/// Thorough tier: histories of three operations.
+macro_rules! c20_harness3 {
+    ($name:ident, $t:ty, $bsel:expr, $kinds:expr) => {
+        pub fn $name(s: &mut Src) {
+            let b: usize = $bsel(s);
+            let r = s.any_usize();
+            s.assume(r <= 22);
+            let sp = spec(0, b, r);
+            let mut win = Win::<16>(s.any_bytes::<16>());
+            win.install(&sp, DATA_BASE);
+            let (i1, _k1) = one_op!(s, $t, &sp, &mut win, b, r, $kinds);
+            let (i2, _k2) = one_op!(s, $t, &sp, &mut win, b, r, $kinds);
+            let (i3, _k3) = one_op!(s, $t, &sp, &mut win, b, r, $kinds);
+            cov!(s, "three operations on three neighbouring regions", i1 + 1 == i2 && i2 + 1 == i3);
+            cov!(s, "first and last operation on the same region", i1 == i3 && i1 != i2);
+        }
+    };
+}
+
 fn any_sub_byte_log(s: &mut Src) -> usize {
     let b = s.any_usize();
     s.assume(b <= 2);
@@ -163,6 +182,9 @@ c20_harness!(c20_u8, u8, |_s: &mut Src| 3usize, all_kinds);
 c20_harness!(c20_u16, u16, |_s: &mut Src| 4usize, all_kinds);
 c20_harness!(c20_u32, u32, |_s: &mut Src| 5usize, all_kinds);
 c20_harness!(c20_u64, u64, |_s: &mut Src| 6usize, all_kinds);
+c20_harness3!(c20_bits_rw_3ops, u8, any_sub_byte_log, rw_kinds);
+c20_harness3!(c20_bits_fetch_3ops, u8, any_sub_byte_log, fetch_kinds);
+c20_harness3!(c20_u16_3ops, u16, |_s: &mut Src| 4usize, all_kinds);
 
 harnesses! {
     #[kani::unwind(4)] c20_bits_rw;
@@ -171,4 +193,7 @@ harnesses! {
     #[kani::unwind(4)] c20_u16;
     #[kani::unwind(4)] c20_u32;
     #[kani::unwind(4)] c20_u64;
+    #[kani::unwind(4)] c20_bits_rw_3ops; // tier=thorough timeout=2400
+    #[kani::unwind(4)] c20_bits_fetch_3ops; // tier=thorough timeout=2400
+    #[kani::unwind(4)] c20_u16_3ops; // tier=thorough timeout=2400
 }
